@@ -554,7 +554,11 @@ class ExprMixin(object):
                 raise VerifError("field %s.%s has no declared type (add cls(...) to the sidecar)" % (b.name, attr))
         if isinstance(base, StructV):
             return base[base.field_index(attr)]
+        if is_z3(base) and attr == "__class__":
+            return BuiltinV("anyclass")
         if isinstance(base, BuiltinV):
+            if base.name == "anyclass" and attr == "__name__":
+                return "<class name>"
             if base.name.startswith("clibmod:"):
                 return BuiltinV("clib:%s:%s" % (base.name[8:], attr))
             if base.name == "ffi" and attr == "NULL":
